@@ -81,13 +81,15 @@ pub fn is_design(m: &[f64], nrows: usize) -> bool {
     is_design
 }
 
-/// Checks whether a 1D array is a valid symmetric matrix.
+/// Checks whether a 1D array is a valid symmetric matrix. Two mirrored entries are considered
+/// equal if they differ by at most machine epsilon relative to the larger of the two.
 #[inline(always)]
 pub fn is_symmetric(m: &[f64]) -> bool {
     let n = is_square(m).unwrap();
     for i in 0..n {
         for j in i..n {
-            if (m[i * n + j] - m[j * n + i]).abs() > f64::EPSILON {
+            let (x, y) = (m[i * n + j], m[j * n + i]);
+            if (x - y).abs() > f64::EPSILON * x.abs().max(y.abs()) {
                 return false;
             }
         }
